@@ -16,7 +16,6 @@ package verifh
 //     errors as Parse (sampled subset, one Env per child process).
 
 import (
-	"sync/atomic"
 	"context"
 	"crypto/sha256"
 	"encoding/base64"
@@ -30,6 +29,7 @@ import (
 	"sort"
 	"strings"
 	"sync"
+	"sync/atomic"
 	"testing"
 	"time"
 	"unicode/utf8"
@@ -662,7 +662,9 @@ func c12Seed(r *rand.Rand) string {
 // c12Tokenize splits s into lexical chunks whose concatenation is s.
 func c12Tokenize(s string) []string {
 	var out []string
-	isL := func(c byte) bool { return c == '_' || (c >= 'a' && c <= 'z') || (c >= 'A' && c <= 'Z') || (c >= '0' && c <= '9') }
+	isL := func(c byte) bool {
+		return c == '_' || (c >= 'a' && c <= 'z') || (c >= 'A' && c <= 'Z') || (c >= '0' && c <= '9')
+	}
 	for i := 0; i < len(s); {
 		j := i + 1
 		c := s[i]
@@ -1036,6 +1038,21 @@ func c12Sweeps(p *runParams) []c12Sweep {
 			}
 			return ins
 		}})
+	}
+	// very long runs of one token in a permission body (the documented nesting
+	// limit must stop the recursion, whatever the token): up to 3 million
+	// repetitions (3 MB, still below the gRPC message limit); one input per
+	// journalled case, so that a process death (stack overflow) is attributed to it
+	for _, tok := range []string{"!", "(", "!(", "((", "!!(", "[", "{", "this.", "||", "&&", "=>", "!this.related.r.includes(ctx.subject)&&", "(this.related.r.includes(ctx.subject)||"} {
+		for _, n := range []int{100, 10_000, 1_000_000, 3_000_000} {
+			if n*len(tok) > 4_000_000 {
+				continue
+			}
+			tok, n := tok, n
+			out = append(out, c12Sweep{"token-run", map[string]any{"token": tok, "count": n}, func(*rand.Rand) []string {
+				return []string{c12PermProgram(strings.Repeat(tok, n) + "this.related.r.includes(ctx.subject)")}
+			}})
+		}
 	}
 	// type-check fan-out
 	for k := 1; k <= 4; k++ {
